@@ -354,7 +354,10 @@ impl<'a> Walk<'a> {
         F: Fn(Path) + Sync + Send,
         's: 'w,
     {
-        if level > self.depth {
+        // `level` is the nesting level of this directory below an input path (0 = the input
+        // path itself). `--depth N` lists the directories of the levels 0..N-1 only:
+        // 1 = the given directories, but not their subdirectories.
+        if level >= self.depth {
             return;
         }
         if !self.path_selector.matches_dir(&path) {
